@@ -94,4 +94,9 @@ VARIANTS = [
             f.close()
             os.replace(tmp, fname)
 '''),
+    dict(name="round3: write helper publishes in a finally clause", kind="break",
+         edits=[('cotengra/utils.py', 'class DiskDict:\n    """A simple persistent dict.', '@contextlib.contextmanager\ndef open_atomic(fname):\n    tmp = fname.with_name(\n        f"{fname.name}.tmp-{os.getpid()}-{threading.get_ident()}"\n    )\n    try:\n        with open(tmp, "wb") as f:\n            yield f\n    finally:\n        os.replace(tmp, fname)\n\n\nclass DiskDict:\n    """A simple persistent dict.'), ('cotengra/utils.py', '            tmp = fname.with_name(\n                f"{fname.name}.tmp-{os.getpid()}-{threading.get_ident()}"\n            )\n            with open(tmp, "wb") as f:\n                pickle.dump(v, f)\n            os.replace(tmp, fname)\n', '            with open_atomic(fname) as f:\n                pickle.dump(v, f)\n'), ('cotengra/utils.py', 'import collections\n', 'import collections\nimport contextlib\n')],
+         expect=("C15-ATOMIC", "open_atomic")),
+    dict(name="twin: write helper publishing on the normal path only", kind="twin",
+         edits=[('cotengra/utils.py', 'class DiskDict:\n    """A simple persistent dict.', '@contextlib.contextmanager\ndef open_atomic(fname):\n    tmp = fname.with_name(\n        f"{fname.name}.tmp-{os.getpid()}-{threading.get_ident()}"\n    )\n    with open(tmp, "wb") as f:\n        yield f\n    os.replace(tmp, fname)\n\n\nclass DiskDict:\n    """A simple persistent dict.'), ('cotengra/utils.py', '            tmp = fname.with_name(\n                f"{fname.name}.tmp-{os.getpid()}-{threading.get_ident()}"\n            )\n            with open(tmp, "wb") as f:\n                pickle.dump(v, f)\n            os.replace(tmp, fname)\n', '            with open_atomic(fname) as f:\n                pickle.dump(v, f)\n'), ('cotengra/utils.py', 'import collections\n', 'import collections\nimport contextlib\n')]),
 ]
